@@ -257,7 +257,8 @@ Class ==
       dep  == {LogP[i].k : i \in {j \in 1..Len(LogP) : LogP[j].k # "S" /\ LogP[j].ref \notin Refs(series') /\ Live(LogP[j], T')}}
       segE == Flat(Flat(segs'))
       \* kinds of entries outside the checkpoint that depend on a series record kept only by `deleted`
-      out  == {segE[i].k : i \in {j \in 1..Len(segE) : segE[j].k # "S" /\ segE[j].ref \notin Refs(series')}}
+      cpS  == {cpE[i].ref : i \in {j \in 1..Len(cpE) : cpE[j].k = "S"}}
+      out  == {<<segE[i].k, segE[i].ref \in cpS>> : i \in {j \in 1..Len(segE) : segE[j].k # "S" /\ segE[j].ref \notin Refs(series')}}
       acts == {hist'[i].a : i \in 1..Len(hist')}       \* which kinds of steps the history contains
       delNow == {deleted'[r] - first' : r \in DOMAIN deleted'}   \* how far ahead of the first segment series records are kept
   IN IF st.a = "Truncate" THEN <<"Truncate", st.ckpt, st.gc > 0, orph, dup, delNow, kdel, edge, dep, out, pend.on, Cardinality(series'), acts>>
